@@ -27,6 +27,10 @@ class NeedsContract(EngineAbort):
     pass
 
 
+# NaN: data values are Reals; NaN-ness is an uninterpreted predicate, `NAN` the value dimarray's own fills store
+ISNAN = z3.Function("isnan", z3.RealSort(), z3.BoolSort())
+NAN = z3.Real("NaN")
+
 _counter = itertools.count()
 
 def fresh_name(base):
@@ -36,7 +40,7 @@ def fresh_name(base):
 class Ctx(object):
     """State of one symbolic path."""
 
-    def __init__(self, schedule=(), feas_timeout_ms=3000, prove_timeout_ms=20000):
+    def __init__(self, schedule=(), feas_timeout_ms=1000, prove_timeout_ms=20000):
         # feasibility solver: E-matching only.  A branch is pruned only on `unsat`; with model-based
         # quantifier instantiation off, satisfiable queries come back `unknown` at once instead of
         # looping in model construction.
@@ -44,6 +48,7 @@ class Ctx(object):
         self.solver.set("timeout", feas_timeout_ms)
         self.solver.set("mbqi", False)
         self.solver.set("auto_config", False)
+        self.solver.add(ISNAN(NAN))
         self.prove_timeout_ms = prove_timeout_ms
         self.schedule = list(schedule)
         self.pos = 0
@@ -152,6 +157,8 @@ class Ctx(object):
         # portfolio: default z3 (MBQI + E-matching), then E-matching only, then a reseeded default run
         variants = (("z3", None), ("z3-ematching", {"mbqi": False, "auto_config": False}), ("z3-seed7", {"random_seed": 7, "smt.random_seed": 7}))
         budget = [self.prove_timeout_ms // 2, self.prove_timeout_ms // 4, self.prove_timeout_ms // 4]
+        if hint:
+            budget = [2000]        # a hint is a single-instantiation fact: cheap or useless
         r = z3.unknown
         variant = "z3"
         for (variant, opts), ms in zip(variants, budget):
@@ -227,7 +234,9 @@ def to_z3(x):
     if isinstance(x, int):
         return z3.IntVal(x)
     if isinstance(x, float):
-        if x != x or x in (float("inf"), float("-inf")):
+        if x != x:
+            return NAN
+        if x in (float("inf"), float("-inf")):
             raise OutOfSubset("non-finite float constant %r in symbolic arithmetic" % x)
         return z3.RealVal(repr(x))
     if z3.is_expr(x):
